@@ -87,6 +87,13 @@ CHECKS = {
                      'cuts in the thorough tier); the request events seen by handlers and the bytes written back are compared with '
                      'one-piece delivery (differential oracle), for the server and for the client component',
                 note='trusted: z3/pathex, the web rig (sink in place of the TCP server); messages limited to the grammar in harness/c13.py'),
+    'C14': dict(engine='pathex', technique=TECH, ref='DESIGN.md 4/C14',
+                text='bounded symbolic execution of the real HTTP component and parser on hostile input: base request x mutation '
+                     'catalogue (one mutation with every truncation offset as a z3 Int, pairs of mutations on whole messages) x '
+                     'disconnect; outcome must be waiting, exactly one response accepted by an independent parser (http.client) with '
+                     '4xx/5xx for rejected input and Connection: close iff closed, or a plain close; no request event for rejected '
+                     'input, nothing escapes tick(), no per-connection state after disconnect, the loop still serves afterwards',
+                note='trusted: z3/pathex, the web rig, http.client as the independent response parser; inputs limited to the catalogue in harness/c14.py'),
 }
 
 NOT_YET = {
